@@ -18,6 +18,7 @@
  * In the native replay the real libc allocator is used.
  */
 #include "verif.h"
+#include <malloc.h>
 #include <errno.h>
 #include <sys/types.h>
 #include <inttypes.h>
@@ -68,7 +69,7 @@ static void *v_memmove(void *dst, const void *src, size_t n);
 
 #ifndef REPLAY
 /* typed objects (a byte-array object makes every field / lines[i] access a byte-level extraction) */
-struct v_rec { ini_line_t hdr; uint8_t data[MAXDATA + INI_LINE_ALLOC_PADDING]; };
+struct v_rec { ini_line_t hdr; uint8_t data[MAXDATA + INI_LINE_ALLOC_PADDING]; size_t v_req; /* ghost: bytes the code asked for */ };
 /* LINES_TAB <= INI_LINES_PREALLOC pointers are materialised: the code asks for 64; handing out a SHORTER object is sound
  * for a HOLD verdict because any access past entry LINES_TAB-1 is an object-bounds violation and is reported. */
 #define LINES_TAB (NLN + 2 * NSET + 2)
@@ -90,10 +91,12 @@ static void *v_calloc_rec(size_t n, size_t sz) {
 	r->hdr.data = NULL; r->hdr.data_size = 0; r->hdr.data_allocated_size = 0; r->hdr.type = 0;
 	r->hdr.name = NULL; r->hdr.name_size = 0; r->hdr.val = NULL; r->hdr.val_size = 0;
 	for (size_t i = 0; i < sizeof(r->data); i++) r->data[i] = 0;
+	r->v_req = want;
 	return (r);
 }
 static void *v_realloc(void *old, size_t sz) {
 	V_ASSERT(sz <= sizeof(struct v_rec), "HARNESS record fits the concrete capacity");
+	((struct v_rec *)old)->v_req = sz;
 	unsigned c = v_realloc_calls++;
 	if (c < 4 && (IN.realloc_moves[c] & 1)) {
 		struct v_rec *r = malloc(sizeof(struct v_rec));
@@ -286,6 +289,18 @@ void harness(void) {
 	ini_p ini = NULL;
 	V_ASSERT(ini_create(&ini) == 0 && ini != NULL, "ini_create succeeds");
 	V_ASSERT(ini_buf_parse(ini, text, TLEN) == 0, "PARSE succeeds on any text");
+	/* representation invariant: a line never claims more storage than it asked the allocator for (the real block is that
+	 * small; the typed stub's object is larger). Seeded change C12-ini-line-alloc-sizeof: sizeof(pointer) for sizeof(struct). */
+	for (size_t li = 0; li < NLN + 1; li++) {
+		if (li < ini->lines_count && NULL != ini->lines[li])
+#ifdef REPLAY	/* natively the block is the real one: compare with what malloc actually gave */
+			V_ASSERT(sizeof(ini_line_t) + ini->lines[li]->data_allocated_size <= malloc_usable_size(ini->lines[li]),
+			    "ALLOC a line's claimed capacity fits the block it allocated");
+#else
+			V_ASSERT(sizeof(ini_line_t) + ini->lines[li]->data_allocated_size <= ((struct v_rec *)ini->lines[li])->v_req,
+			    "ALLOC a line's claimed capacity fits the block it allocated");
+#endif
+	}
 	r_parse(text);
 	V_ASSERT(ini->lines_count == rcount, "PARSE one record per text line");
 
